@@ -5,9 +5,9 @@
    files are rejected.  Start of a realization: cached file tensor + 0.1 x fresh draw per entry; the cache is taken at the first
    realization and never replaced, so every realization restarts from the file values (every arithmetic).
    Only statements; every proof is `exact <lemma>` (proofs live in the files imported below). *)
-From Coq Require Import List NArith Bool Arith NArith ZArith Floats.
+From Coq Require Import List NArith Bool Arith NArith ZArith Floats Reals.
 Import ListNotations.
-From MT Require Import Arith SweepModel Layout InitModel CtrlModel CliModel CliProofs InitProofs GraphModel MainModel CliModel CliProofs Mt19937 SeededModel CliMain CliMainProofs CliAffinityProofs.
+From MT Require Import Arith SweepModel Layout InitModel CtrlModel CliModel CliProofs InitProofs GraphModel MainModel CliModel CliProofs Mt19937 SeededModel CliMain CliMainProofs CliAffinityProofs GenParams FloatInst ParamFacts.
 
 (* well-formed file: accepted, d_k lands at pos(k, layer), every other position keeps its value, the length is unchanged *)
 Theorem C14_reader_positions : forall (num tokn : Type) (is_hash : tokn -> bool) (pnum : tokn -> option num)
@@ -281,4 +281,11 @@ Theorem C14_cli_missing_file : forall (A : Arith float) (stoi : str -> option Z)
          reason_name argv = CliThrow 3.
 Proof. exact cli_main_affinity_file_missing. Qed.
 Print Assumptions C14_cli_missing_file.
+
+(* the amplitude of the noise added to a user-supplied affinity, as it stands in params.hpp now: 0.1 (exactly the double nearest to 0.1 in the executed model) *)
+Theorem C14_params : cxx_EPS_NOISE_R = (1 / 10)%R /\
+       cxx_EPS_NOISE_F = 0.10000000000000001%float /\
+       (forall lnf : float -> float, noise (ArithF lnf) = cxx_EPS_NOISE_F).
+Proof. exact noise_is_one_tenth. Qed.
+Print Assumptions C14_params.
 
